@@ -23,6 +23,8 @@ type C04Case struct {
 	// exchanged (argument collections <-> header/cookie collections), so the same selector and operator texts are
 	// compiled in another context. The outcome may not depend on which WAFs were created earlier in the process.
 	OtherWAFs bool `json:"other_wafs,omitempty"`
+	// JSONBody: the request carries a JSON body with member names that differ only in case
+	JSONBody bool `json:"json_body,omitempty"`
 	// Reps: repetitions on fresh WAFs and on the long-lived one (default 6 each); witnesses of rare divergences use more
 	Reps int `json:"reps,omitempty"`
 }
@@ -103,6 +105,35 @@ func genC04(t *rapid.T) *C04Case {
 				Op: "unconditionalMatch"}})
 		}
 		c.OtherWAFs = true
+	}
+	if rapid.IntRange(0, 5).Draw(t, "jsonbody") == 0 {
+		// a JSON body whose member names differ only in case (they meet in one case-insensitive ARGS_POST entry): which one
+		// is exposed may be a loss (known finding of C03), but it may not change from run to run
+		names := []string{"a", "A", "b", "B", "Ab", "aB", "ab"}
+		var sb strings.Builder
+		sb.WriteString("{")
+		for i, n := 0, rapid.IntRange(2, 5).Draw(t, "jn"); i < n; i++ {
+			if i > 0 {
+				sb.WriteString(",")
+			}
+			k := rapid.SampledFrom(names).Draw(t, "jk")
+			if rapid.IntRange(0, 3).Draw(t, "jnest") == 0 {
+				fmt.Fprintf(&sb, "%q:{%q:%q,%q:%q}", k, rapid.SampledFrom(names).Draw(t, "jk1"), rapid.SampledFrom(c01Values).Draw(t, "jv1"), rapid.SampledFrom(names).Draw(t, "jk2"), rapid.SampledFrom(c01Values).Draw(t, "jv2"))
+			} else {
+				fmt.Fprintf(&sb, "%q:%q", k, rapid.SampledFrom(c01Values).Draw(t, "jv"))
+			}
+		}
+		sb.WriteString("}")
+		c.Req.Method, c.Req.ContentType, c.Req.Post, c.Req.RawBody = "POST", "application/json", nil, []byte(sb.String())
+		if !c.Cfg.ReqBodyAccess {
+			c.Cfg.ReqBodyAccess = true
+			c.RS.Pre = append(c.RS.Pre, "SecRequestBodyAccess On")
+		}
+		c.RS.Items = append([]Item{{Line: `SecRule REQUEST_HEADERS:Content-Type "@contains json" "id:985,phase:1,pass,nolog,ctl:requestBodyProcessor=JSON"`}}, c.RS.Items...)
+		c.RS.Items = append(c.RS.Items, Item{Rule: &Rule{ID: 986, Phase: 2, Disr: "pass", Targets: []Target{{Var: "ARGS_POST"}}, Op: "rx", Arg: "."}},
+			Item{Rule: &Rule{ID: 987, Phase: 2, Disr: "deny", Targets: []Target{{Var: "ARGS_POST", Key: "json." + rapid.SampledFrom([]string{"a", "b", "ab"}).Draw(t, "jsel")}},
+				Op: "streq", Arg: rapid.SampledFrom(c01Values[1:]).Draw(t, "jarg")}})
+		c.JSONBody = true
 	}
 	if rapid.IntRange(0, 7).Draw(t, "orderacrossnames") == 0 {
 		// a chain whose link reads TX.1 captured from a target with several values under DIFFERENT names: which value
@@ -249,6 +280,9 @@ func checkC04(c *C04Case) Result {
 	res.Labels = append(res.Labels, "kind:"+c.Kind)
 	if c.FirstValue {
 		res.Labels = append(res.Labels, "first-value-readers")
+	}
+	if c.JSONBody {
+		res.Labels = append(res.Labels, "json-body-with-case-variant-names")
 	}
 	hasTrans := false
 	for _, r := range c.RS.Rules() {
